@@ -58,8 +58,10 @@ namespace ratio
                             if (!slv.get_lra_theory().set_lb(slv.get_lra_theory().new_var(xpr->l), lb, adaptations.at(atm).sigma_xi))
                             { // setting the lower bound caused a conflict..
                                 swap_conflict(slv.get_lra_theory());
-                                if (!backtrack_analyze_and_backjump())
+                                if (!backtrack_analyze_and_backjump() || !slv.solve() || xi_violated)
                                     throw execution_exception();
+                                dont_start.erase(at_atm);
+                                goto manage_tick; // the plan has been adapted: what was assumed so far in this pass (e.g., the sigma_xi reasons) might no longer hold..
                             }
                         }
                         delays = true;
@@ -86,8 +88,10 @@ namespace ratio
                             if (!slv.get_lra_theory().set_lb(slv.get_lra_theory().new_var(xpr->l), lb, adaptations.at(atm).sigma_xi))
                             { // setting the lower bound caused a conflict..
                                 swap_conflict(slv.get_lra_theory());
-                                if (!backtrack_analyze_and_backjump())
+                                if (!backtrack_analyze_and_backjump() || !slv.solve() || xi_violated)
                                     throw execution_exception();
+                                dont_end.erase(at_atm);
+                                goto manage_tick; // the plan has been adapted: what was assumed so far in this pass (e.g., the sigma_xi reasons) might no longer hold..
                             }
                         }
                         delays = true;
@@ -125,8 +129,9 @@ namespace ratio
                                     if (!slv.get_lra_theory().set(slv.get_lra_theory().new_var(ai->l), val, adaptations.at(atm).sigma_xi))
                                     { // freezing the arithmetic expression caused a conflict..
                                         swap_conflict(slv.get_lra_theory());
-                                        if (!backtrack_analyze_and_backjump())
+                                        if (!backtrack_analyze_and_backjump() || !slv.solve() || xi_violated)
                                             throw execution_exception();
+                                        goto manage_tick; // the plan has been adapted: what was assumed so far in this pass (e.g., the sigma_xi reasons) might no longer hold..
                                     }
                                 }
                             }
@@ -164,8 +169,9 @@ namespace ratio
                             if (!slv.get_lra_theory().set(slv.get_lra_theory().new_var((*at).l), val, adaptations.at(atm).sigma_xi))
                             { // freezing the arithmetic expression caused a conflict..
                                 swap_conflict(slv.get_lra_theory());
-                                if (!backtrack_analyze_and_backjump())
+                                if (!backtrack_analyze_and_backjump() || !slv.solve() || xi_violated)
                                     throw execution_exception();
+                                goto manage_tick; // the plan has been adapted: what was assumed so far in this pass (e.g., the sigma_xi reasons) might no longer hold..
                             }
                         }
                     }
@@ -188,8 +194,9 @@ namespace ratio
                             if (!slv.get_lra_theory().set(slv.get_lra_theory().new_var((*end).l), val, adaptations.at(atm).sigma_xi))
                             { // freezing the arithmetic expression caused a conflict..
                                 swap_conflict(slv.get_lra_theory());
-                                if (!backtrack_analyze_and_backjump())
+                                if (!backtrack_analyze_and_backjump() || !slv.solve() || xi_violated)
                                     throw execution_exception();
+                                goto manage_tick; // the plan has been adapted: what was assumed so far in this pass (e.g., the sigma_xi reasons) might no longer hold..
                             }
                         }
                     }
